@@ -156,6 +156,22 @@ def check(ctx):
                message='%s is chosen by a test that follows symlinks: a payload that is a link '
                        'to a directory cannot be removed, its .trashinfo is removed anyway -- '
                        'the entry is not removed whole' % prim)
+    # R10.2b the date compared is parsed from this very entry: nothing written while
+    # handling one entry outlives its iteration
+    from .c19 import entry_iterations
+    leaks = {}
+    for it in entry_iterations(b):
+        head = [p for p, l in g.pred[it.id] if g.n(p).kind == 'loop']
+        if head:
+            region = g.reachable_from(it.id, blocked=[head[0]])
+            for n, o in carried_state_writes(b, region):
+                leaks.setdefault((n.func, n.src), n)
+    ctx.ob('R10.2', 'the date of one entry cannot be taken for the next (no state outlives an '
+                    'entry\'s iteration)', not leaks,
+           node=list(leaks.values())[0] if leaks else listed[0],
+           message='a value parsed from one .trashinfo is kept in an object shared by all '
+                   'entries (%s): an undated entry inherits the date of the previous one and '
+                   'is purged' % (list(leaks)[0][1] if leaks else ''))
     # R10.4 twins
     approve = {}
     for d in listed:
